@@ -1,4 +1,5 @@
 import TinyFlux.Audit.Tool
 import TinyFlux.Props.C15
 import TinyFlux.Props.C15EndToEnd
+import TinyFlux.Props.C15State
 #audit TinyFlux.Props.C15
